@@ -795,9 +795,12 @@ class _CipherCtx:
             return _gcm_decrypt(env, self.c.alg.key, self.c.mode.iv, self.aad, self.data, getattr(self.c.mode, "tag", None))
         r = env.rec(kind + "_decrypt", key=self.c.alg.key, iv=self.c.mode.iv, aad=self.aad, ct=self.data,
                     tag=getattr(self.c.mode, "tag", None))
-        # CBC has no authentication of its own
+        # CBC has no authentication of its own: with a tag the sender can make valid (he knows the CEK) the decrypted octets are
+        # whatever he likes -- env.cbc_shape picks the class: 0 well padded, 1 empty (no block at all), 2 a block with bad padding,
+        # 3 a full block of padding (empty plaintext)
         if env.adv:
-            r["out"] = pkcs7(env.plaintext)
+            shape = getattr(env, "cbc_shape", 0)
+            r["out"] = [pkcs7(env.plaintext), b"", b"\x00" * 16, bytes([16]) * 16][shape]
             return r["out"]
         for e in env.of("cbc_encrypt"):
             if e["key"] == r["key"] and e["iv"] == r["iv"] and e["ct"] == r["ct"]:
@@ -1020,6 +1023,9 @@ class _ChaCtx:
     def decrypt_and_verify(self, ct, tag):
         env = CUR
         r = env.rec("chacha_decrypt", key=self.key, iv=self.nonce, aad=self.aad, ct=ct, tag=tag)
+        if len(tag) != 16:
+            r["verdict"] = False          # probed on PyCryptodome: a tag that is not 16 octets never verifies
+            raise ValueError("MAC check failed")
         if env.adv:
             r["verdict"] = env.verdict()
             if not r["verdict"]:
